@@ -77,6 +77,11 @@ def replay(case, acc):
     check(acc, (), case['text'], case['indent'], case.get('origin', 'replay'))
 
 
+from harness.shrink import text_shrinker  # noqa: E402
+shrink = text_shrinker(replay, 'text')
+
+
+
 INDENTS = st.one_of(st.sampled_from(['  ', '    ', '\t', '', ' ']), st.text(alphabet=' \t', max_size=8))
 
 
